@@ -173,6 +173,34 @@ def meanAxisOld (a : Arr) (axis : Int) : Except Exc Arr :=
     | .error e => .error e
     | .ok r => .ok (if axis < 0 then { r with dims := a.dims } else r)
 
+/-! ### `eval_function` on (nested) calls of `mean`
+
+  `eval_function(dataset, "mean(mean(v,k1),k2)", functions)`: the arguments are evaluated first (`map(parse, tokenize(args))`:
+  a token that matches FUNCTION is evaluated recursively, another token is looked up in the dataset, else read by
+  `ast.literal_eval`), then `functions[name](dataset, *args)`.  Here for the one function `mean` over an environment
+  `env` of array variables (what `reduce(operator.getitem, [dataset] + names)` finds): the first argument is a call or a
+  variable, the optional second a token that `literal_eval` reads as a decimal integer (`int(axis)`).  Outside this
+  fragment (an axis token that is no decimal integer: `1.5`, `0x1`, a variable) the model does not resolve the call
+  (`unspecified`). -/
+def evalMean (env : Str → Option Arr) : Arg → Except Exc Arr
+  | .tok s => match env s with
+    | some a => .ok a
+    | none => .error .unspecified            -- a literal / unknown name as the array: `mean` raises (not resolved which error)
+  | .call name [x] =>
+    if name = cs!"mean" then
+      match evalMean env x with
+      | .ok a => meanAxis a 0                 -- `axis=0` default
+      | .error e => .error e
+    else .error .keyError                     -- `functions[name]`
+  | .call name [x, .tok k] =>
+    if name = cs!"mean" then
+      match evalMean env x, parseIntChars k with
+      | .ok a, some axis => meanAxis a axis
+      | .error e, _ => .error e
+      | .ok _, none => .error .unspecified
+    else .error .keyError
+  | .call name _ => if name = cs!"mean" then .error .unspecified else .error .keyError
+
 /-! ### `bounds` -/
 
 inductive Axis where | x | y | z
